@@ -86,6 +86,9 @@ let () = iter_lines (fun line ->
      every interleaving, so the expected verdict is "ok" *)
   | "conc" :: _ -> print_endline "ok"
   | "exhaust" :: _ -> print_endline "ok"
+  (* reused messages: Reset re-arms the configured limit (Message.initReadLimit); the bound per
+     incarnation is traversal_bound's, the re-arming itself is checked by the run only *)
+  | "reuse" :: _ -> print_endline "ok"
   | _arena :: t :: d :: rest ->
     let segs, ops = match rest with
       | [s; o] -> s, o
